@@ -5,7 +5,7 @@ from n0v import coqlit as L
 from n0v.core import Prop
 from props import xpath_common as X
 
-FIELDS = ["id", "k1", "f", "a"]
+FIELDS = ["id", "k1", "f", "a", "text", "textId"]
 BIG = 9007199254740993      # 2**53 + 1: not representable as a float
 VALS = ["1", "2", "x", "B", "a b", 1, 2, 1.5, "xy", "10", BIG, BIG - 1, "m=f", "a~b", "m=f~x", "C:\\tmp", "a\tb", "it's", "C++", "a+b"]
 LITS = ["1", "2", "x", "B", "a b", "xy", "1.5", "zz", "10", "0", str(BIG), str(BIG - 1), "m=f", "a~b", "C:\\tmp", "a\tb", "it's", "C++", "a+b", "+"]
@@ -17,8 +17,8 @@ def gen_recs(rng, n=None):
     for _ in range(n):
         r = {}
         for f in FIELDS:
-            if rng.random() < 0.7:
-                r[f] = rng.choice(VALS) if rng.random() < 0.9 else X.gen_tree(rng, 1)
+            if rng.random() < (0.7 if f in ("id", "k1", "f", "a") else 0.3):
+                r[f] = None if rng.random() < 0.04 else rng.choice(VALS) if rng.random() < 0.9 else X.gen_tree(rng, 1)
         out.append(r)
     return out
 
@@ -68,7 +68,7 @@ class C06(Prop):
         out = []
         for _ in range(n):
             recs = gen_recs(rng)
-            depth = rng.randrange(5)
+            depth = rng.randrange(6)
             mode = rng.choice(["convert", "convert", "wrap", "json"])
             if depth == 0:
                 t, P, ppath = {"r": recs, "z": 1}, rng.choice(["r", "/r", "//r"]), ["r"]
@@ -78,9 +78,12 @@ class C06(Prop):
                 t, P, ppath = {"a": [{"x": 1}, {"r": recs}]}, rng.choice(["a[1]/r", "/a[last()]/r", "a[-1]/r"]), ["a", 1, "r"]
             elif depth == 3:
                 t, P, ppath = {"a": {"b": [[0], recs]}}, rng.choice(["a/b[1]", "//a/b[last()]", "a/b/[1]"]), ["a", "b", 1]
-            else:
+            elif depth == 4:
                 # a list-rooted container: the records sit in an element other than the first
                 t, P, ppath = [{"x": 1}, {"r": recs, "k1": "x"}], rng.choice(["[1]/r", "[-1]/r", "/[1]/r", "[last()]/r"]), [1, "r"]
+            else:
+                # the list of records is the root itself: only the explicit fan-out applies ('[*]/f')
+                t, P, ppath = recs, rng.choice(["", "/"]), []
             f = rng.choice(FIELDS)
             k = rng.choice(FIELDS)
             v = rng.choice(LITS) if rng.random() < 0.95 else ""      # the empty literal: equals no string or number field
@@ -88,6 +91,8 @@ class C06(Prop):
             if v == "" and form == "has":
                 form = "textq"
             q = rng.choice(["'", '"'])
+            if depth == 5:
+                form = "star"
             if form == "star":
                 xp = "%s[*]/%s" % (P, f)
             elif form == "short":
@@ -117,7 +122,7 @@ class C06(Prop):
                 t, ppath = {"orders": orders}, None
                 xp = "orders[id=%s]/items[%s=%s]/%s" % (rng.choice(["1", "2"]), k, v, f)
             pre = None
-            if ppath is not None and rng.random() < 0.12:
+            if ppath and rng.random() < 0.12:
                 # the same question asked twice on one document, the record list (or its parent) replaced in between:
                 # the second answer is about the records that are there now
                 pre = {"recs": gen_recs(rng), "graft": len(ppath) if rng.random() < 0.6 or len(ppath) < 2 or not isinstance(ppath[-1], str)
